@@ -10,6 +10,12 @@ R3  FIFO polarity, the capacity gate in front of the append, the disconnect
     event going through the same gate and ending the pump;
 R4  lifecycle of the pump task (close -> stop first, stop cancels/awaits/clears,
     start idempotent and skipped for capacity 0, WebSocket bypass for 0).
+R5  every framework path that ends a session passes a completed ``WebSocket.close()`` - the only caller of
+    ``stop()`` - and is not guarded by ``closed``/``ready`` (= C17's ``r3_session_paths``, shared).
+R6  ``receive()`` concludes "pump ended, no more messages" only inside the await-free section after the wait and
+    only from "the registered future was not notified" or an explicit emptiness test of the queue.
+
+``disconnect_flag_prompt`` (flag raised before the pump's next suspension) is registered under C17 as its R6.
 
 Roles are derived, not named: the queue is the attribute initialised with
 ``collections.deque()``, waiters are the attributes that receive the result of
@@ -796,11 +802,15 @@ def r6_end_of_stream(run):
     regs = br.reg_nodes(f, cfg, br.pop_waiter)
     if not regs:
         raise AnchorError('%s: registration of %s not found' % (f.qual, br.pop_waiter))
-    wl: Set[str] = set()          # locals holding the registered future
+    wl: Set[str] = set(br.aliases(f, br.pop_waiter))          # locals holding the registered future
     for r in regs:
-        v = strip_await(cfg.node(r).ast.value)
+        a = cfg.node(r).ast
+        v = strip_await(a.value)
         if isinstance(v, ast.Name):
             wl.add(v.id)
+        for t in (a.targets if isinstance(a, ast.Assign) else [a.target]):
+            if isinstance(t, ast.Name):
+                wl.add(t.id)
 
     def notified(e) -> Optional[bool]:
         """polarity True: 'the registered future is done' (the pump announced a message)"""
@@ -833,6 +843,11 @@ def r6_end_of_stream(run):
                         names |= {x.id for x in walk_self(d) if isinstance(x, ast.Name)}
         if names & wait_locals:
             return short(cond)
+        # completion of some other future/task-like local (not the pump task attribute): not understood
+        for x in walk_self(cond):
+            if isinstance(x, ast.Call) and isinstance(x.func, ast.Attribute) and x.func.attr in ('done', 'cancelled', 'result', 'exception') \
+                    and isinstance(x.func.value, ast.Name) and x.func.value.id not in wl and x.func.value.id not in br.aliases(f, br.task):
+                return short(cond)
         if names & wl:
             recognised = {id(x.func.value) for x in walk_self(cond) if isinstance(x, ast.Call) and notified(x)}
             stray = [x for x in walk_self(cond) if isinstance(x, ast.Name) and x.id in wl and id(x) not in recognised]
